@@ -4,9 +4,11 @@
           promql/impossible vs [template_missing] / [impossible_problems];
     (iii) semantics: the vendored engine's result of EVERY sub-expression vs the local rule of that node given the
           engine's results of its children ([sem_check]);
-    (iv)  the harness' Go mirror of [must_have] (used for the K3 class predicate) vs the model. *)
+    (iv)  the harness' Go mirror of [must_have] (used for the K3 class predicate) vs the model;
+    (v)   the harness' Go mirrors of the known-finding class predicates (K1 K2 K6 K7 syntactic parts, K3 mechanisms per
+          label) vs Model.PromClass.class_rows: the guards of [C12_impossible_sound] are the predicates the harness uses. *)
 From Coq Require Import List String Bool Floats NArith.
-From PintV Require Import Common.Bytes Gen.C04 Model.PromQL Model.Source Model.PromSem.
+From PintV Require Import Common.Bytes Gen.C04 Model.PromQL Model.Source Model.PromSem Model.PromClass.
 Import ListNotations.
 Open Scope string_scope.
 Open Scope list_scope.
@@ -21,6 +23,7 @@ Record case := {
   c_tmpl_missing : list string;     (* observed: labels reported by the real alerts/template (sorted) *)
   c_impossible : N;                 (* observed: number of problems of the real promql/impossible *)
   c_musthave : list string;         (* observed: labels l of the universe with mustHave(expr, l) in the harness mirror *)
+  c_classes : list (list bool);     (* observed: the harness' Go mirror of Model.PromClass.class_rows (one row per binary node) *)
   c_dbs : list dbcase
 }.
 
@@ -102,6 +105,20 @@ Fixpoint list_str_eqb (a b : list string) : bool :=
   | _, _ => false
   end.
 
+Fixpoint bools_eqb (a b : list bool) : bool :=
+  match a, b with
+  | [], [] => true
+  | x :: a', y :: b' => Bool.eqb x y && bools_eqb a' b'
+  | _, _ => false
+  end.
+
+Fixpoint rows_eqb (a b : list (list bool)) : bool :=
+  match a, b with
+  | [], [] => true
+  | x :: a', y :: b' => bools_eqb x y && rows_eqb a' b'
+  | _, _ => false
+  end.
+
 Definition check_db (e : expr) (d : dbcase) : list string :=
   let '(_, rest, tags, _) := sem_check (d_series d) e (d_results d) in
   match rest with [] => tags | _ => "results-left-over" :: tags end.
@@ -112,6 +129,7 @@ Definition check (c : case) : list string :=
   ++ (if list_str_eqb (sort_str (template_missing srcs [] (c_tmpl_vars c))) (c_tmpl_missing c) then [] else ["template"])
   ++ (if N.eqb (N.of_nat (List.length (impossible_problems srcs))) (c_impossible c) then [] else ["impossible"])
   ++ (if list_str_eqb (filter (must_have (metric_name :: universe) (c_expr c)) (c_tmpl_vars c)) (c_musthave c) then [] else ["musthave"])
+  ++ (if rows_eqb (class_rows (c_tmpl_vars c) (c_expr c)) (c_classes c) then [] else ["classes"])
   ++ flat_map (check_db (c_expr c)) (c_dbs c).
 
 Fixpoint mismatches (cs : list case) : list (N * string) :=
